@@ -2,6 +2,7 @@ package core
 
 import (
 	"fmt"
+	"github.com/bmeg/grip/engine/inspect"
 
 	"github.com/bmeg/grip/engine/logic"
 	"github.com/bmeg/grip/engine/pipeline"
@@ -73,7 +74,14 @@ func (comp DefaultCompiler) Compile(stmts []*gripql.GraphStatement, opts *gdbi.C
 	ps := pipeline.NewPipelineState(stmts)
 	if opts != nil {
 		ps.LastType = opts.PipelineExtension
-		ps.MarkTypes = opts.ExtensionMarkTypes
+		if opts.ExtensionMarkTypes != nil {
+			ps.MarkTypes = opts.ExtensionMarkTypes
+		}
+		if opts.StoreMarks {
+			for _, step := range inspect.PipelineAsSteps(stmts) {
+				ps.StepOutputs[step] = []string{"*"}
+			}
+		}
 	}
 
 	procs := make([]gdbi.Processor, 0, len(stmts))
